@@ -4,8 +4,8 @@ import vlib
 from props import c02
 
 PROP = "C16"
-CENV = ["unset", "empty", "prefix", "suffix", "case", "other", "exact"]
-CCFG = ["normal", "emptykey", "emptyvalue"]
+CENV = ["unset", "empty", "prefix", "suffix", "case", "other", "spaced", "exact"]
+CCFG = ["normal", "emptykey", "emptyvalue", "blankvalue"]
 MUX = ["unset", "empty", "true", "false", "one", "garbage"]
 TLS = ["none", "static", "auto"]
 
@@ -28,7 +28,9 @@ def make_cases(tier, rng):
     # every cookie combination (with a random serve configuration each)
     for cc in CCFG:
         for ce in CENV:
-            for _ in range(1 if tier == "quick" else 100):
+            if cc == "blankvalue" and ce in ("prefix", "suffix", "case"):
+                continue        # for the value " " these classes coincide with empty / other / exact
+            for _ in range((5 if ce == "spaced" else 1) if tier == "quick" else 100):
                 add(cc, ce, rng.choice(MUX), rng.choice(TLS))
     # with the right cookie: every mux-variable class x TLS mode
     for mv in MUX:
